@@ -1,16 +1,28 @@
 #!/bin/bash
-# usage: tools/try_patch.sh <patch.diff> <ID> [<ID>...]   -- apply a seeded change to /repo, run the quick checks, undo.
+# usage: tools/try_patch.sh [--in-repo] <patch.diff> <ID> [<ID>...]
+# Runs the quick checks against a seeded change.  Default: on a scratch worktree of /repo's HEAD (VERIF_REPO=<worktree>),
+# so /repo itself is never touched; --in-repo applies the patch to /repo, runs, and undoes it (what the harness does).
 # Evidence and replays of these runs go to a scratch directory, not to /verif/evidence.
 set -u
+MODE=worktree
+if [ "$1" = "--in-repo" ]; then MODE=repo; shift; fi
 PATCH="$(realpath "$1")"; shift
 HERE="$(cd "$(dirname "$0")/.." && pwd)"
 SCR="$(mktemp -d /tmp/verif-try.XXXXXX)"
-if ! git -C /repo diff --quiet; then echo "/repo has uncommitted changes; refusing"; exit 9; fi
-git -C /repo apply "$PATCH" 2>/dev/null || { echo "patch does not apply"; exit 9; }
-git -C /repo reset -q 2>/dev/null
-trap 'git -C /repo checkout -- . ; rm -rf "$SCR"' EXIT
+if [ "$MODE" = repo ]; then
+  if ! git -C /repo diff --quiet; then echo "/repo has uncommitted changes; refusing"; exit 9; fi
+  git -C /repo apply "$PATCH" 2>/dev/null || { echo "patch does not apply"; exit 9; }
+  trap 'git -C /repo checkout -- . ; rm -rf "$SCR"' EXIT
+  TARGET=/repo
+else
+  WT="$SCR/wt"
+  git -C /repo worktree add -q --detach "$WT" HEAD || exit 9
+  trap 'git -C /repo worktree remove --force "$WT" 2>/dev/null; rm -rf "$SCR"' EXIT
+  git -C "$WT" apply "$PATCH" 2>/dev/null || { echo "patch does not apply"; exit 9; }
+  TARGET="$WT"
+fi
 for id in "$@"; do
   echo "=== $id on $(basename "$(dirname "$PATCH")")/$(basename "$PATCH")"
-  VERIF_EVIDENCE_DIR="$SCR/ev" VERIF_REPLAY_DIR="$SCR/replays" "$HERE/bin/check" "$id" ${TIER:+--tier $TIER} 2>&1 | grep -v "^  what\|^  obligation" | tail -${LINES_SHOWN:-12}
+  VERIF_REPO="$TARGET" VERIF_EVIDENCE_DIR="$SCR/ev" VERIF_REPLAY_DIR="$SCR/replays" "$HERE/bin/check" "$id" ${TIER:+--tier $TIER} 2>&1 | grep -v "^  what\|^  obligation" | tail -${LINES_SHOWN:-12}
   echo "exit=${PIPESTATUS[0]}"
 done
